@@ -31,6 +31,7 @@ def run(ctx):
                 jobs.append((exe, [2, alg, 3, 0], "%s-k%dd%dm%d" % ((be,) + tr), False))
     jobs.sort(key=lambda j: not j[3])
     common.parallel(lambda j: common.run_harness(ctx, j[0], j[1], label=j[2]), jobs)
+    common.align_jobs(ctx, jobs, lambda j: j[2] in ("asm", "c64") and j[1][2] == 3 and j[1][0] < 5)
     ADW = ["aead-ad:0", "aead-ad:1", "aead-ad:2", "siv-ad:0", "siv-ad:1", "siv-ad:2", "isap-ad:0", "isap-ad:1", "isap-ad:2"]
     common.mid_lengths(ctx, ADW, ("asm", "c64", "c32", "dxor", "generic") if ctx.thorough else ("asm", "c32"))
     if ctx.thorough:
